@@ -1,5 +1,5 @@
 Require Import String List Arith Bool ZArith PrimFloat.
-Require Import Tensor Num Result C09_Masked C09_Ops C09_Facts C09_Src C09_Run C09_Core C09_NI C09_NI2 C09_GenTie C09_Examples Gen_C09.
+Require Import Tensor Num Result C09_Masked C09_Ops C09_TfNorm C09_Facts C09_Src C09_Run C09_Core C09_NI C09_NI2 C09_NI3 C09_GenTie C09_Examples Gen_C09.
 Import ListNotations.
 (* C09 - missing points never influence results.  Bodies are pairs (values, mask) whose values under the mask are
    arbitrary (nan, +-inf included); [agree_body b b'] says b and b' have the same confidences, the same missing pattern
@@ -51,6 +51,40 @@ Example normalize_nonvacuous :
   visible_body F_ops (np_normalize F_ops FE 0 0 1%float ex_np) = visible_body F_ops (np_normalize F_ops FE 0 0 1%float ex_np').
 Proof. exact ex_normalize_runs. Qed.
 Print Assumptions normalize_nonvacuous.
+
+(* normalisation on a TensorFlow body (Pose.normalize / normalize_distribution go through MaskedTensor.mean / variance / std,
+   arithmetic between masked tensors and utils.fast_math.distance_batch; Torch bodies do not offer them), and
+   unnormalize_distribution on Torch / TensorFlow bodies, with plain and with masked (mu, std) *)
+Theorem masked_tensor_statistics_noninterference : forall (O : ops) (l l' : list (cell O)), agree_l O l l' ->
+  tfmean O l = tfmean O l' /\ tfvariance O l = tfvariance O l' /\ tfstd O l = tfstd O l'.
+Proof. exact (fun O l l' H => conj (VIL_tfmean O l l' H) (conj (VIL_tfvariance O l l' H) (VIL_tfstd O l l' H))). Qed.
+Print Assumptions masked_tensor_statistics_noninterference.
+Theorem masked_tensor_statistics_missing_iff_no_valid_cell : forall (O : ops) (l : list (cell O)),
+  snd (tfmean O l) = Nat.eqb (count O l) 0 /\ snd (tfstd O l) = Nat.eqb (count O l) 0.
+Proof. exact (fun O l => conj (tfmean_missing O l) (tfstd_missing O l)). Qed.
+Print Assumptions masked_tensor_statistics_missing_iff_no_valid_cell.
+Theorem normalize_noninterference_tensorflow : forall (O : ops) (p1 p2 : nat) (scale_factor : T O) (b b' : body O),
+  agree_body O b b' -> agree_body O (tf_normalize O p1 p2 scale_factor b) (tf_normalize O p1 p2 scale_factor b').
+Proof. exact tf_normalize_ni. Qed.
+Print Assumptions normalize_noninterference_tensorflow.
+Theorem normalize_distribution_noninterference_tensorflow : forall (O : ops) (lead : nat) (b b' : body O), agree_body O b b' ->
+  agree_body O (fst (tf_normalize_distribution O lead b)) (fst (tf_normalize_distribution O lead b')) /\
+  snd (tf_normalize_distribution O lead b) = snd (tf_normalize_distribution O lead b').
+Proof. exact tf_normalize_distribution_ni. Qed.
+Print Assumptions normalize_distribution_noninterference_tensorflow.
+Theorem unnormalize_distribution_noninterference_masked_tensor : forall (O : ops) (b b' : body O), agree_body O b b' ->
+  (forall mu sd : list (T O), agree_body O (t_unnormalize_distribution O mu sd b) (t_unnormalize_distribution O mu sd b')) /\
+  (forall mu mu' sd sd' : list (cell O), agree_l O mu mu' -> agree_l O sd sd' ->
+     agree_body O (t_unnormalize_distribution_masked O mu sd b) (t_unnormalize_distribution_masked O mu' sd' b')).
+Proof. exact (fun O b b' H => conj (fun mu sd => t_unnormalize_distribution_ni O mu sd b b' H)
+  (fun mu mu' sd sd' Hm Hs => t_unnormalize_distribution_masked_ni O mu mu' sd sd' b b' Hm Hs H)). Qed.
+Print Assumptions unnormalize_distribution_noninterference_masked_tensor.
+Example normalize_tensorflow_nonvacuous :
+  bdat ex_t <> bdat ex_t' /\
+  visible_body F_ops (tf_normalize F_ops 0 0 1%float ex_t) = visible_body F_ops (tf_normalize F_ops 0 0 1%float ex_t') /\
+  visible_body F_ops (fst (tf_normalize_distribution F_ops 2 ex_t)) = visible_body F_ops (fst (tf_normalize_distribution F_ops 2 ex_t')).
+Proof. exact ex_tf_normalize_runs. Qed.
+Print Assumptions normalize_tensorflow_nonvacuous.
 
 (* linear transforms: flip; matmul with any matrix (augment2d = matmul with the drawn matrix, for every draw) *)
 Theorem flip_noninterference : forall (O : ops) (axis : nat) (b b' : body O), agree_body O b b' ->
@@ -176,6 +210,22 @@ Theorem tie_sources :
   Gen_C09.src_torch_representation_angle_AngleRepresentation = C09_Src.torch_representation_angle_AngleRepresentation /\
   Gen_C09.src_torch_representation_inner_angle_InnerAngleRepresentation = C09_Src.torch_representation_inner_angle_InnerAngleRepresentation /\
   Gen_C09.src_torch_representation_point_line_distance_PointLineDistanceRepresentation = C09_Src.torch_representation_point_line_distance_PointLineDistanceRepresentation /\
-  Gen_C09.src_torch_representation_points_PointsRepresentation = C09_Src.torch_representation_points_PointsRepresentation.
+  Gen_C09.src_torch_representation_points_PointsRepresentation = C09_Src.torch_representation_points_PointsRepresentation /\
+  Gen_C09.src_utils_fast_math = C09_Src.utils_fast_math.
 Proof. exact sources_tie. Qed.
 Print Assumptions tie_sources.
+(* the statement lists model/C09_TfNorm.v transcribes, spelled out: MaskedTensor.mean / variance / std / fix_nan of
+   tensorflow/masked/tensor.py and utils/fast_math.py distance_batch, as regenerated from the source on this run *)
+Theorem tie_tf_statistics :
+  src_of "mean" Gen_C09.src_tensorflow_masked_tensor_MaskedTensor =
+    ["mt_sum = tf.math.reduce_sum(self.zero_filled(), axis=axis, keepdims=keepdims)"; "mt_count = tf.math.reduce_sum(tf.cast(self.mask, mt_sum.dtype), axis=axis, keepdims=keepdims)"; "tensor = tf.math.divide(mt_sum, mt_count)"; "mask = tf.cast(mt_count, tf.bool)"; "mt = MaskedTensor(tensor=tensor, mask=mask)"; "return mt.fix_nan()"] /\
+  src_of "variance" Gen_C09.src_tensorflow_masked_tensor_MaskedTensor =
+    ["means = self.mean(axis=axis, keepdims=True)"; "diff = self - means"; "squared_deviations = diff.square()"; "return squared_deviations.mean(axis=axis)"] /\
+  src_of "std" Gen_C09.src_tensorflow_masked_tensor_MaskedTensor =
+    ["variance = self.variance(axis=axis)"; "return variance.sqrt()"] /\
+  src_of "fix_nan" Gen_C09.src_tensorflow_masked_tensor_MaskedTensor =
+    ["self.tensor = tf.where(tf.math.is_finite(self.tensor), self.tensor, tf.zeros_like(self.tensor))"; "return self"] /\
+  src_of "distance_batch" Gen_C09.src_utils_fast_math =
+    ["squared = (p1s - p2s) ** 2"; "summed = squared.sum(axis=-1)"; "return summed ** 0.5"].
+Proof. exact tf_statistics_tie. Qed.
+Print Assumptions tie_tf_statistics.
